@@ -645,8 +645,23 @@ pub fn generate(rng: &mut Rng, o: Opts) -> Prog {
     let n = g.rng.range(2, 7) as usize;
     g.block(&mut main, 2, n, &[], false, 0);
     let l = g.label();
-    let tail = if subs_first { g.rng.usize(6) } else { 0 };
+    let tail = if subs_first { g.rng.usize(8) } else { 0 };
     match tail {
+        6 if !main.is_empty() => {
+            // the program ends in ON..GOTO: the first time round it jumps back to the start of the main
+            // part, the second time the selector is out of range and the program runs off its end
+            let back = main[0].label;
+            main.push(Line { label: l, sts: vec![St::Let("Z7".into(), E::Bin(Box::new(E::V("Z7".into())), "+", Box::new(E::N(1))), false)] });
+            let l2 = g.label();
+            let sel = if g.rng.coin() { E::V("Z7".into()) } else { E::Bin(Box::new(E::V("Z7".into())), "*", Box::new(E::N(2))) };
+            main.push(Line { label: l2, sts: vec![St::On(sel, false, vec![back, back])] });
+        }
+        7 if nsubs > 0 => {
+            // the program ends in ON..GOSUB with a selector that is often out of range
+            let sel = E::Bin(Box::new(E::V(g.var())), "MOD", Box::new(E::N(3)));
+            let targets: Vec<usize> = (0..g.rng.range(1, 3)).map(|_| g.sub_labels[g.rng.usize(nsubs)]).collect();
+            main.push(Line { label: l, sts: vec![g.print(), St::On(sel, true, targets)] });
+        }
         0 => main.push(Line { label: l, sts: vec![g.print(), St::End] }),
         1 => main.push(Line { label: l, sts: vec![g.print()] }),
         2 => main.push(Line { label: l, sts: vec![St::If(g.cond(&[]), vec![St::End], None)] }),
@@ -2097,6 +2112,13 @@ pub fn model_session(p: &Prog, cmds: &[Cmd], max_steps: u64) -> Vec<ModelRun> {
                 let mut returned = false;
                 loop {
                     if pos.line >= p.lines.len() {
+                        if m.tron && !p.lines.is_empty() && m.traced != Some(p.lines.len() - 1) {
+                            // running off the end executes the closing END, which the implementation counts
+                            // as part of the last line of the listing (a trailing remark is announced, and so
+                            // is the last line again after a subroutine returned to its very end): how the
+                            // trace shows that is not documented
+                            break End::Unspec("trace at the closing END");
+                        }
                         break End::Normal;
                     }
                     let sts = m.sts_at(&pos);
